@@ -27,7 +27,7 @@ for mf in sorted(glob.glob(os.path.join(VERIF, "seeded", "*", "meta.json"))):
             if rc != 0:
                 det[pid] = [l.strip() for l in out.splitlines() if l.startswith("  ")][:4]
     finally:
-        run(["git", "-C", REPO, "checkout", "--", "."])
+        run(["git", "-C", REPO, "checkout", "--", "."]); run(["git", "-C", REPO, "clean", "-fdq"])
     meta["detected_by"], meta["reports"] = sorted(det), det
     json.dump(meta, open(mf, "w"), indent=1)
     print(os.path.basename(d), "->", sorted(det))
